@@ -131,6 +131,8 @@ def gen_jobs(ctx):
         return (pat * (n // len(pat) + 1))[:n]
     small = lambda k: {"name": "s%d" % k, "help": "h", "type": "COUNTER", "metrics": [{"labels": [["l", "v"]], "counter": F(float(k))}]}
     sizes = [(700, "ab\\\n\"é"), (9000, "ab\\\n\"é"), (3000, "測試値"), (70000, "xyz ")] if ctx.quick else [(8191, "a"), (8192, "a"), (8193, "é"), (9000, "ab\\\n\"é"), (3000, "測試値"), (33000, "q\n"), (70000, "xyz "), (300000, "0123456789")]
+    # sizes that put the encoded family right at a length-prefix boundary of the protobuf framing (127/128 and 16383/16384 bytes)
+    sizes += [(n, "a") for n in (list(range(80, 110)) + list(range(16330, 16370)) if not ctx.quick else list(range(88, 100)) + list(range(16345, 16353)))]
     for n, pat in sizes:
         # up to ~1 kB the TLA+ parser reads the text itself; beyond that (its character-level recursion is quadratic) the text must
         # equal the parser-verified text of the same families with a short placeholder in place of the long string, the placeholder
